@@ -61,22 +61,21 @@ let rop_of (k, j, v) = match k with
 
 let b2i b = if b then 1 else 0
 
-(* one step: (ok, defect, state') *)
+(* one step: (ok, flag, state'); columns have no flag (printed only for rows) *)
 let col_step cs o =
-  let d = b2i (defect_cop up_w cs o) in
   match apply_cop down_w up_w cs o with
-  | Ok cs' -> (1, d, cs')
-  | _ -> (0, d, cs)
+  | Ok cs' -> (1, 0, cs')
+  | _ -> (0, 0, cs)
 let row_step rs o =
   let d = b2i (materialises rs o) in
   match apply_rop down_h rs o with
   | Ok rs' -> (1, d, rs')
   | _ -> (0, d, rs)
 
-let col_final cs oks defs obs =
+let col_final cs oks _defs obs =
   let out = ref [] in
   let push x = out := x :: !out in
-  List.iter push oks; List.iter push defs;
+  List.iter push oks;
   push (List.length cs);
   List.iter (fun c -> push (int_of_z c.c_min); push (int_of_z c.c_max); push (int_of_z c.c_width); push (b2i c.c_custom);
                       push (b2i c.c_hidden); push (match c.c_style with None -> 0 | Some s -> int_of_z s + 1)) cs;
